@@ -9,7 +9,12 @@ EXTENDS Naturals, Sequences, FiniteSets, TLC, Json
 CONSTANTS MaxPickles
 Class == {"atom", "p0text", "binlen0", "binlen255", "binlen256", "binlen65536", "ints", "memo", "globals",
           "natural_lo", "natural_hi", "len8",
-          "nonascii"}      \* text whose encoded length differs from its length in characters (2-, 3-, 4-byte UTF-8, lone surrogates, Latin-1 bytes)
+          "nonascii",
+          "frames",        \* FRAME lengths the pickler never writes: under-announcing, zero, two frames in one pickle
+          "frames_over"}   \* ... and over-announcing (the announced frame reaches into what follows the pickle).  The first pickle
+                           \* still ends at its STOP - that is what re-serialising reproduces and what the partition of a stack
+                           \* is made of - but the stock unpickler itself reads on to the end of the announced frame, so the
+                           \* cross-check against its stopping point is not applied to this class      \* text whose encoded length differs from its length in characters (2-, 3-, 4-byte UTF-8, lone surrogates, Latin-1 bytes)
 Trail == {"none", "junk", "truncated"}
 Kind  == {"bytes", "bytearray", "seekable", "file", "buffered", "nonseekable"}      \* seekable = io.BytesIO, file = a real file opened "rb",
                                                                           \* buffered = io.BufferedReader over a raw stream; bytearray = a caller-owned
